@@ -3,6 +3,7 @@ package engb
 import (
 	"fmt"
 	"math/rand/v2"
+	"os"
 	"path/filepath"
 	"regexp"
 	"sort"
@@ -76,6 +77,48 @@ func runC08(c *vkit.Ctx, lab *Lab, r *rand.Rand, i int) {
 	}
 	own := BuildOwned(rec)
 	sd := lab.Seed(r, own, LabOpts{Stale: true})
+	// a skipped test that takes very many snapshots: entries of it with five-digit (and
+	// one- to four-digit) ordinals the recording never reached are planted in a file that
+	// other tests keep in use; a test that called snaps.Skip keeps ALL its entries
+	type planted struct{ path, id string }
+	var bigOrd []planted
+	if lc.Run == "" {
+		tests := make([]string, 0, len(lc.SkipNodes))
+		for t := range lc.SkipNodes {
+			tests = append(tests, t)
+		}
+		sort.Strings(tests)
+		for _, t := range tests {
+			if lc.SkipNodes[t] == "plain" || lc.SkipExec[t] != 0 || lc.SkipAt[t] != 0 || lc.SkipAfter[t] {
+				continue
+			}
+			for f, owners := range own.FileOwn {
+				if !owners[t] || len(owners) < 2 {
+					continue
+				}
+				others := false
+				for o := range owners {
+					if o != t && lc.SkipNodes[o] == "" && !strings.HasPrefix(o, t+"/") && !strings.HasPrefix(t, o+"/") {
+						others = true
+					}
+				}
+				ents, torn := vkit.ReadSnapFile(f)
+				if !others || len(torn) > 0 {
+					continue
+				}
+				for _, n := range []int{9999, 10000, 12345, 100000} {
+					id := vkit.SlotID(t, n)
+					ents = append(ents, vkit.SnapEntry{ID: id, Body: "one of very many snapshots of a skipped test"})
+					bigOrd = append(bigOrd, planted{f, id})
+				}
+				os.WriteFile(f, []byte(vkit.RenderSnapFile(ents)), 0o644)
+				break
+			}
+			if len(bigOrd) > 0 {
+				break
+			}
+		}
+	}
 	res := lab.P.RunChild(RunOpt{PkgDir: lab.PkgDir, Scenario: lc.withSkips(), Run: lc.Run, Count: lc.Count, Extra: lc.RunnerFlags(), Update: lc.Update})
 	in := labSample(lc)
 	if !res.Complete {
@@ -196,6 +239,18 @@ func runC08(c *vkit.Ctx, lab *Lab, r *rand.Rand, i int) {
 				}
 			}
 		}
+	}
+	for _, pl := range bigOrd {
+		t := strings.SplitN(pl.id, " - ", 2)[0]
+		if a.Skipped[t] == 0 || !addrFile[pl.path] {
+			continue // the skip did not happen (an ancestor skipped first) or the file was not examined
+		}
+		post, _ := vkit.ReadSnapFile(pl.path)
+		if inList(sum.Tests, pl.id) || len(vkit.FindEntries(post, pl.id)) != 1 {
+			c.Violate("protected-entry-discarded", "", fmt.Sprintf("[%s] in %s belongs to %s, which called snaps.%s; listed=%v present-after=%v", pl.id, filepath.Base(pl.path), t, lc.SkipNodes[t], inList(sum.Tests, pl.id), len(vkit.FindEntries(post, pl.id))), in)
+			return
+		}
+		c.Count("high_ordinal_entries_of_skipped_tests_checked", 1)
 	}
 	// converse clause: a skip must not protect siblings that merely share a name prefix
 	if lc.Run == "" {
